@@ -121,7 +121,7 @@ def history(task):
             problems.append("after step %d (%s): trash-list output is not the bag" % (k, cmd))
         if problems or mism:
             break
-    out = {"steps": steps, "problems": problems, "mismatch": mism, "entries_at_end": len(trash_entries(state))}
+    out = {"steps": steps, "problems": problems, "mismatch": mism, "entries_at_end": len(trash_entries(state)), "task": dict(task)}
     if problems or mism:
         out["last_world"] = jsonable({k_: v for k_, v in wd.items() if k_ != "meta"})
     return out
@@ -138,12 +138,24 @@ def run(tier, seed):
                 tags=["step:" + s for s in r["steps"]] + ["history-length:%d" % len(r["steps"])], sample={"steps": r["steps"]})
         ck.traces += len(r["steps"])
         for step, m in r["mismatch"]:
-            ck.disagreement("Model vs trashcli in a history (%s: %s)" % (step, m["what"]), {"steps": r["steps"], "world": r.get("last_world"), "difference": m})
+            ck.disagreement("Model vs trashcli in a history (%s: %s)" % (step, m["what"]), {"task": r["task"], "steps": r["steps"], "world": r.get("last_world"), "difference": m})
         for p in r["problems"]:
-            ck.violation(re.sub(r"\d+", "N", p)[:70], {"oracle": "history"}, {"steps": r["steps"], "problem": p, "world": r.get("last_world")})
+            ck.violation(re.sub(r"\d+", "N", p)[:70], {"oracle": "history"}, {"task": r["task"], "steps": r["steps"], "problem": p, "world": r.get("last_world")})
     return ck.finish(info, LEVEL_NOTE, RULE)
 
 
 def replay(path):
-    print(open(path).read()[:4000])
-    return 1
+    import json
+    obj = json.load(open(path))
+    tasks = []
+    if isinstance(obj.get("replay"), dict) and obj["replay"].get("task"):
+        tasks.append(obj["replay"]["task"])
+    tasks += [c["task"] for c in obj.get("disagreeing_cases", []) if c and c.get("task")]
+    rc = 0
+    for t in tasks:
+        r = history(t)
+        print(json.dumps({"steps": r["steps"], "problems": r["problems"], "mismatch": r["mismatch"]}, indent=1, default=repr))
+        if r["problems"] or r["mismatch"]:
+            print("VIOLATION property=C09 replay=%s" % path)
+            rc = 1
+    return rc
